@@ -177,7 +177,84 @@ def flatten_tt(tt, name, steps=24):
     return polys
 
 
+def polys_of_segments(segs_list, steps=64):
+    polys = []
+    for kind, start, segs, _ in segs_list:
+        cur = tuple(map(float, start))
+        poly = [cur]
+        for sg in segs:
+            if sg[0] == "line":
+                cur = tuple(map(float, sg[1])); poly.append(cur)
+            elif sg[0] == "qcurve":
+                offs = [tuple(map(float, p)) for p in sg[1]]
+                end = tuple(map(float, sg[2]))
+                pts = [(offs[k], ((offs[k][0] + offs[k + 1][0]) / 2, (offs[k][1] + offs[k + 1][1]) / 2)) for k in range(len(offs) - 1)]
+                if offs:
+                    pts.append((offs[-1], end))
+                else:
+                    poly.append(end)
+                for q, e in pts:
+                    for k in range(1, steps + 1):
+                        poly.append(quad_pt(cur, q, e, k / steps))
+                    cur = e
+                cur = end
+            else:
+                return None
+        polys.append(poly)
+    return polys
+
+
+def unrounded_distance_test(ctx, rng):
+    """the conversion error as configured, measured on the pre-processor's UNROUNDED quadratic outlines (no rounding
+    slack): small errors (below one unit), small and large unitsPerEm, large ovals"""
+    from ufo2ft.preProcessor import TTFPreProcessor
+    import math
+    for i in range(ctx.budget(10, 60)):
+        upm = [1000, 1000, 500, 2048, 250][i % 5]
+        err = [0.0002, 0.0001, 0.0004, None, 0.001][i % 5]
+        r = rng.randint(int(upm * 0.2), int(upm * 0.35))
+        cx, cy = rng.randint(0, 300), rng.randint(0, 300)
+        k = 0.5523 * r * rng.choice([1.0, 0.9, 1.1])
+        oval = [(cx + r, cy, "curve"), (cx + r, cy + k, "off"), (cx + k, cy + r, "off"), (cx, cy + r, "curve"),
+                (cx - k, cy + r, "off"), (cx - r, cy + k, "off"), (cx - r, cy, "curve"), (cx - r, cy - k, "off"),
+                (cx - k, cy - r, "off"), (cx, cy - r, "curve"), (cx + k, cy - r, "off"), (cx + r, cy - k, "off")]
+        # point order for a closed contour: off-curves precede the on-curve they lead to
+        contour = [oval[-2], oval[-1]] + oval[:-2]
+        contour = [(Fr(round(x)), Fr(round(y)), t) for x, y, t in contour]
+        desc = {"glyphs": [{"name": "o", "unicodes": [0x6F], "width": Fr(upm), "contours": [contour], "components": [], "anchors": []}],
+                "info": {"unitsPerEm": upm}}
+        kw = {} if err is None else {"conversionError": err}
+        tol = (err or 0.001) * upm
+        case = {"font": jsonable(desc), "options": jsonable(kw), "unitsPerEm": upm, "level": "TTFPreProcessor (unrounded) distance test"}
+        try:
+            gset = TTFPreProcessor(build_font(desc), **kw).process()
+        except Exception as e:
+            ctx.spec_failure(case, "TTFPreProcessor raised %s: %s" % (type(e).__name__, e))
+            continue
+        ctx.count(); ctx.klass("unrounded-distance-test upm=%d err=%s" % (upm, err)); ctx.nontriv(("udist", i, ctx.scale))
+        cs, _ = geom.glyph_points(gset["o"])
+        polys = polys_of_segments([geom.to_segments(c) for c in cs])
+        if polys is None:
+            ctx.spec_failure(case, "cubic segment left after cubic-to-quadratic conversion")
+            continue
+        worst = 0.0
+        s = geom.to_segments(contour)
+        cur = tuple(map(float, s[1]))
+        for sg in s[2]:
+            if sg[0] == "curve":
+                c1, c2 = [tuple(map(float, p)) for p in sg[1]]
+                end = tuple(map(float, sg[2]))
+                for kk in range(0, 41):
+                    p = cubic_pt(cur, c1, c2, end, kk / 40)
+                    worst = max(worst, min(dist_to_polyline(p, poly) for poly in polys))
+            cur = tuple(map(float, sg[-1]))
+        if worst > tol + 0.02:
+            ctx.spec_failure(dict(case, distance=worst, allowed=tol), "unrounded quadratic spline is %.4f units from the source cubic, configured "
+                             "conversion error %s x unitsPerEm %d = %.4f" % (worst, err or 0.001, upm, tol))
+
+
 def cubic_distance_test(ctx, rng):
+    unrounded_distance_test(ctx, rng)
     import ufo2ft
     from fontTools.ttLib import TTFont
     for i in range(ctx.budget(12, 80)):
